@@ -681,11 +681,18 @@ func closeToken(idx, count, cpos, match int, pos map[int]int, line []rune, split
 
 // newlines gives the indexes of all newline characters in the line.
 func (l *Line) newlines() [][]int {
-	line := string(*l)
-	line += string(inputrc.Newline)
-	nl := regexp.MustCompile(string(inputrc.Newline))
+	// Positions are indexes in the line (runes), like the cursor
+	// position they are compared with: not byte offsets in a string.
+	var newlines [][]int
 
-	return nl.FindAllStringIndex(line, -1)
+	for pos, char := range *l {
+		if char == inputrc.Newline {
+			newlines = append(newlines, []int{pos, pos + 1})
+		}
+	}
+
+	// The end of the line counts as a newline.
+	return append(newlines, []int{len(*l), len(*l) + 1})
 }
 
 // returns bpos, epos ordered and true if either is valid.
